@@ -22,12 +22,15 @@ HEALTHY = {
     'good':   {'kex': ['sntrup761x25519-sha512@openssh.com'], 'key': ['ssh-ed25519'], 'enc': ['aes256-gcm@openssh.com'], 'mac': ['hmac-sha2-256-etm@openssh.com'], 'hostkeys': HK},
     'warn':   {'kex': ['curve25519-sha256'], 'key': ['ssh-ed25519'], 'enc': ['aes128-ctr'], 'mac': ['hmac-sha2-256'], 'hostkeys': HK},
     'fail':   {'kex': ['diffie-hellman-group1-sha1', 'curve25519-sha256'], 'key': ['ssh-dss', 'ssh-ed25519'], 'enc': ['3des-cbc'], 'mac': ['hmac-md5'], 'hostkeys': HK},
+    # a server whose (legal) KEXINIT makes a report of more than a megabyte
+    'huge':   {'kex': ['curve25519-sha256'] + ['k%04d-' % i + 'x' * 900 + '@example.com' for i in range(1200)], 'key': ['ssh-ed25519'], 'enc': ['aes128-ctr'], 'mac': ['hmac-sha2-256'], 'hostkeys': HK},
     'gex':    {'kex': ['curve25519-sha256', 'diffie-hellman-group-exchange-sha256'], 'key': ['rsa-sha2-512', 'ssh-ed25519'], 'hostkeys': dict({k: {'t': 'rsa', 'bits': 2048} for k in ('ssh-rsa', 'rsa-sha2-256', 'rsa-sha2-512')}, **HK), 'moduli': [2048, 4096], 'gex_style': 'roundup'},
 }
 BAD = {
     'unresolvable': 'unresolvable',
     'spaced-name': 'unresolvable',        # a line with blanks inside is one (unusable) target, not two
     'bad-label': 'unresolvable',          # an empty label: the resolver itself raises (UnicodeError from the idna codec), which ends that scan as an internal error
+    'bad-label-idn': 'unresolvable',      # the same with a non-ASCII label next to the empty one
     'refused': 'refused',
     'timeout': 'timeout',
     'silent': {'faults': [['connect', '*', 'stall']]},
@@ -49,7 +52,7 @@ BAD = {
     'ssh1-truncated': {'proto': 1, 'faults': [['pkm', '*', ['trunc', 30, 'close']]]},
 }
 RANK = [0, 2, 3, 1, 255]
-HOST_FORM = {'spaced-name': 'back up%d.invalid', 'bad-label': 't%d..example.invalid'}
+HOST_FORM = {'spaced-name': 'back up%d.invalid', 'bad-label': 't%d..example.invalid', 'bad-label-idn': 'b\u00fccher%d..example.invalid'}
 
 
 def host_for(i, kind):
@@ -303,7 +306,8 @@ def valid_case(case):
 
 
 NO_SHRINK_KEYS = ('choices',)
-ALLK = sorted(HEALTHY) + sorted(BAD)
+HEALTHY4 = sorted(k for k in HEALTHY if k != 'huge')
+ALLK = HEALTHY4 + sorted(BAD)      # ('huge' only in the explicit cases below: it costs a second per run)
 
 
 def strat_list():
@@ -330,7 +334,7 @@ def run(ctx):
     for b in sorted(BAD):
         for n in (2, 3):
             for pos in range(n):
-                hs = [sorted(HEALTHY)[(pos + j + len(b)) % len(HEALTHY)] for j in range(n)]
+                hs = [HEALTHY4[(pos + j + len(b)) % len(HEALTHY4)] for j in range(n)]
                 hs[pos] = b
                 for mode in ('text', 'json'):
                     for threads in ((1, n) if not ctx.quick else (rng.choice([1, n]),)):
@@ -343,6 +347,9 @@ def run(ctx):
         for mode in ('json-v', 'json-indent', 'json-indent-v'):
             if not ctx.quick or rng.random() < 0.5:
                 cases.append({'kinds': ['warn', b, 'good'], 'mode': mode, 'threads': rng.choice([1, 3]), 'choices': [rng.randint(0, 2) for _ in range(20)]})
+    for mode in ('json', 'json-indent', 'text'):
+        for threads in (1, 3):
+            cases.append({'kinds': ['good', 'huge', 'refused', 'warn'], 'mode': mode, 'threads': threads, 'choices': [rng.randint(0, 2) for _ in range(20)]})
     # long target lists (the collector loop works through them in any way it likes; the output contract is the same)
     for n, threads, mode in ((257, 1, 'json'), (300, 32, 'json'), (300, 8, 'text'), (513, 16, 'json'), (64, 64, 'json-indent'), (1025, 32, 'json')) if not ctx.quick else ((257, 4, 'json'), (300, 32, 'text'), (520, 16, 'json')):
         kinds = ['refused'] * n
@@ -357,7 +364,7 @@ def run(ctx):
     real = []
     for _ in range(8 if ctx.quick else 120):
         b = [x for x in REAL_OK if x not in ('bad-block-size', 'bad-padding', 'probe-bad-block', 'ssh1-bad-crc')]
-        real.append({'kind': 'real', 'kinds': [rng.choice(sorted(HEALTHY)), rng.choice(b), rng.choice(sorted(HEALTHY)), rng.choice(b)], 'mode': rng.choice(['text', 'json']), 'threads': rng.choice([1, 2, 4])})
+        real.append({'kind': 'real', 'kinds': [rng.choice(HEALTHY4), rng.choice(b), rng.choice(HEALTHY4), rng.choice(b)], 'mode': rng.choice(['text', 'json']), 'threads': rng.choice([1, 2, 4])})
     slow = [{'kind': 'slow', 'silent': 8, 'threads': 1, 'mode': 'json'}, {'kind': 'slow', 'silent': 26, 'threads': 1, 'mode': 'text'}]      # (the second one waits through more than twenty timeouts) + ([] if ctx.quick else [{'kind': 'slow', 'silent': 8, 'threads': 1, 'mode': 'text'}, {'kind': 'slow', 'silent': 12, 'threads': 2, 'mode': 'json'}, {'kind': 'slow', 'silent': 20, 'threads': 3, 'mode': 'text'}])
     ctx.map(real + slow, chunk=1)
     ctx.note(traces_validated_against_impl=len(real) + len(slow))
